@@ -3,10 +3,10 @@ package main
 // Persistent SMT solver process (z3 -in by default), text SMT-LIB2.
 
 import (
-	"os"
 	"bufio"
 	"fmt"
 	"io"
+	"os"
 	"os/exec"
 	"strings"
 	"time"
@@ -24,6 +24,10 @@ type Solver struct {
 	timeout int // ms
 	log     io.Writer
 
+	poisoned bool
+	syncN    int
+	nRestart int
+
 	nCheck, nSat, nUnsat, nUnknown int
 	solveTime                      time.Duration
 	lastErr                        string
@@ -40,21 +44,32 @@ func solverArgv(kind string) []string {
 }
 
 func NewSolver(kind string, ctx *Ctx, timeoutMs int) (*Solver, error) {
+	s := &Solver{name: kind, ctx: ctx, timeout: timeoutMs}
+	if err := s.start(); err != nil {
+		return nil, err
+	}
+	return s, nil
+}
+
+func (s *Solver) start() error {
+	kind, timeoutMs := s.name, s.timeout
 	argv := solverArgv(kind)
 	cmd := exec.Command(argv[0], argv[1:]...)
 	in, err := cmd.StdinPipe()
 	if err != nil {
-		return nil, err
+		return err
 	}
 	outp, err := cmd.StdoutPipe()
 	if err != nil {
-		return nil, err
+		return err
 	}
 	cmd.Stderr = cmd.Stdout
 	if err := cmd.Start(); err != nil {
-		return nil, err
+		return err
 	}
-	s := &Solver{name: kind, cmd: cmd, in: in, out: bufio.NewReaderSize(outp, 1<<16), ctx: ctx, timeout: timeoutMs}
+	s.cmd, s.in, s.out = cmd, in, bufio.NewReaderSize(outp, 1<<16)
+	s.poisoned = false
+	s.inPath = false
 	if p := os.Getenv("GOSYM_SMTLOG"); p != "" {
 		if f, err := os.Create(fmt.Sprintf("%s.%d", p, cmd.Process.Pid)); err == nil {
 			s.log = f
@@ -67,7 +82,40 @@ func NewSolver(kind string, ctx *Ctx, timeoutMs int) (*Solver, error) {
 		s.send(fmt.Sprintf("(set-option :timeout %d)", timeoutMs))
 	}
 	s.send("(set-option :produce-models true)")
-	return s, nil
+	return nil
+}
+
+// restart replaces a solver process whose reply stream can no longer be trusted.
+func (s *Solver) restart() {
+	s.Close()
+	s.nRestart++
+	if err := s.start(); err != nil {
+		panic(engineErr("solver restart failed: %v", err))
+	}
+}
+
+// readUntilSync sends a marker and returns every reply line that precedes it, so that one command's
+// replies can never be mistaken for the next one's (z3 answers "push canceled" after a timeout).
+func (s *Solver) readUntilSync() []string {
+	s.syncN++
+	marker := fmt.Sprintf("zz-sync-%d", s.syncN)
+	s.send("(echo \"" + marker + "\")")
+	var lines []string
+	for {
+		line, err := s.out.ReadString('\n')
+		t := strings.Trim(strings.TrimSpace(line), "\"")
+		if t == marker {
+			return lines
+		}
+		if t != "" {
+			lines = append(lines, t)
+		}
+		if err != nil {
+			lines = append(lines, "(error \"solver EOF\")")
+			s.poisoned = true
+			return lines
+		}
+	}
 }
 
 func (s *Solver) Close() {
@@ -122,6 +170,9 @@ func (s *Solver) readSexp() string {
 }
 
 func (s *Solver) BeginPath() {
+	if s.poisoned {
+		s.restart()
+	}
 	if s.inPath {
 		s.EndPath()
 	}
@@ -132,10 +183,10 @@ func (s *Solver) BeginPath() {
 }
 
 func (s *Solver) EndPath() {
-	if s.inPath {
+	if s.inPath && !s.poisoned {
 		s.send("(pop 1)")
-		s.inPath = false
 	}
+	s.inPath = false
 }
 
 const inlineSize = 6
@@ -197,40 +248,60 @@ func (s *Solver) Check(extra *Term) string {
 			extra = nil
 		}
 	}
-	start := time.Now()
-	if extra != nil {
-		ref := s.ref(extra)
-		s.send("(push 1)")
-		s.send("(assert " + ref + ")")
-		s.send("(check-sat)")
-		r = s.readSexp()
-		// keep the scope open for a possible Model() call; closed by PopCheck
-	} else {
-		s.send("(push 1)")
-		s.send("(check-sat)")
-		r = s.readSexp()
+	if s.poisoned {
+		s.lastErr = "solver poisoned by an earlier error"
+		return "unknown"
 	}
+	start := time.Now()
+	ref := ""
+	if extra != nil {
+		ref = s.ref(extra) // definitions must live in the path scope, not in the query scope
+	}
+	s.send("(push 1)")
+	if extra != nil {
+		s.send("(assert " + ref + ")")
+	}
+	s.send("(check-sat)")
+	lines := s.readUntilSync()
 	s.solveTime += time.Since(start)
 	s.nCheck++
-	switch r {
-	case "sat":
-		s.nSat++
-	case "unsat":
-		s.nUnsat++
-	default:
-		s.nUnknown++
-		s.lastErr = r
-		if strings.Contains(r, "(error") {
-			r = "error: " + r
-		} else {
-			r = "unknown"
+	r = ""
+	bad := false
+	for _, l := range lines {
+		switch {
+		case l == "sat" || l == "unsat" || l == "unknown":
+			if r == "" {
+				r = l
+			} else {
+				bad = true
+			}
+		default:
+			bad = true
 		}
+	}
+	if bad || r == "" || r == "unknown" {
+		s.nUnknown++
+		s.lastErr = strings.Join(lines, " | ")
+		if bad || r == "" {
+			// an error line or an unexpected reply: the stream may be out of step -> never trust it again
+			s.poisoned = true
+		}
+		return "unknown"
+	}
+	if r == "sat" {
+		s.nSat++
+	} else {
+		s.nUnsat++
 	}
 	return r
 }
 
 // PopCheck closes the scope opened by Check.
-func (s *Solver) PopCheck() { s.send("(pop 1)") }
+func (s *Solver) PopCheck() {
+	if !s.poisoned {
+		s.send("(pop 1)")
+	}
+}
 
 // Model returns values for the given variables (must be called after a sat Check, before PopCheck).
 func (s *Solver) Model(vars []*Term) (map[string]string, error) {
@@ -253,9 +324,13 @@ func (s *Solver) Model(vars []*Term) (map[string]string, error) {
 		if len(names) == 0 {
 			continue
 		}
+		if s.poisoned {
+			return res, fmt.Errorf("solver poisoned")
+		}
 		s.send("(get-value (" + strings.Join(names, " ") + "))")
-		out := s.readSexp()
+		out := strings.Join(s.readUntilSync(), "\n")
 		if strings.Contains(out, "(error") {
+			s.poisoned = true
 			return res, fmt.Errorf("get-value: %s", out)
 		}
 		parseModel(out, res)
